@@ -148,6 +148,28 @@ pub fn gen(seed: u64, thorough: bool) {
         }
         let wf = true;
         out.line(&format!("c12 {} {}", hex(&d), if wf { "w" } else { "m" }));
+        if r.chance(1, 3) {
+            // nested containers holding strings full of escaped quotes / backslashes / brackets, of
+            // sweeping length: the 64-byte string-mask carries of the unchecked skipper
+            let mut w = Vec::new();
+            let is_arr2 = r.chance(1, 2);
+            w.extend_from_slice(if is_arr2 { &b"["[..] } else { &b"{\"k\":"[..] });
+            let n_el = 1 + r.below(3);
+            for e in 0..n_el {
+                if e > 0 {
+                    w.extend_from_slice(if is_arr2 { &b","[..] } else { &b",\"k2\":"[..] });
+                }
+                w.extend_from_slice(if r.chance(1, 2) { &b"[\""[..] } else { &b"{\"q\":\""[..] });
+                let closer: &[u8] = if w.ends_with(b"[\"") { b"\"]" } else { b"\"}" };
+                let k = r.below(150);
+                for _ in 0..k {
+                    w.extend_from_slice(*r.pick(&[&b"\\\\"[..], b"\\\"", b"[", b"]", b"{", b"}", b",", b"a", b"b", b" ", b"\\\\\\\""]));
+                }
+                w.extend_from_slice(closer);
+            }
+            w.extend_from_slice(if is_arr2 { &b"]"[..] } else { &b"}"[..] });
+            out.line(&format!("c12 {} w", hex(&w)));
+        }
         let m = mutate(&mut r, &d);
         out.line(&format!("c12 {} m", hex(&m)));
         if r.chance(1, 3) && !d.is_empty() {
